@@ -198,10 +198,11 @@ Record tstate := mkTS {
   ts_items : list titem;
   ts_used : list Z;     (* requesters of well-formed requests in the current block *)
   ts_bad : list Z;      (* requesters that asked twice in some block *)
-  ts_ok : bool          (* no block with unix time 0 so far *)
+  ts_ok : bool;         (* no block with unix time 0 so far *)
+  ts_ctxs : list Z      (* service contexts named by the oracle requests so far, accepted or not *)
 }.
 
-Definition tinit : tstate := mkTS [] [] [] true.
+Definition tinit : tstate := mkTS [] [] [] true [].
 
 Definition obs_pending (o : obs) (id : rid) : list Z :=
   map (fun e => fst (fst e)) (filter (fun e => eqb (snd (fst e)) id) (o_queue o)).
@@ -216,39 +217,55 @@ Definition view_ok (r0 : request) (d : Z) (ph : phase) (o : obs) : bool :=
      end.
 
 Definition kill (it : titem) : titem := mkT (t_r0 it) (t_d it) (t_ph it) false.
-Definition kill_if (f : titem -> bool) (l : list titem) : list titem :=
-  map (fun it => if f it then kill it else it) l.
 
-(** new tracker state and clause code (0 or 9); [s] = model state before the step, [agree] =
-    model and implementation agree on the outcome, which is not an abort *)
+Definition has_ctx (x : Z) (it : titem) : bool := q_oracle (t_r0 it) && (q_ctx (t_r0 it) =? x).
+
+(** is the request still followed after the step?  The hypotheses of [request_life_cycle] are
+    re-examined: its service context is named by no other oracle request, its requester does
+    not ask twice in a block, no block has time 0 *)
+Definition keep (ts : tstate) (st : step) (it : titem) : bool :=
+  t_live it &&
+  match st with
+  | Req c n orc capok txh svc =>
+      negb (match (if orc then svc else None) with Some x => has_ctx x it | None => false end)
+      && negb (req_ok c capok orc svc && memb c (ts_used ts) && (q_consumer (t_r0 it) =? c))
+  | Begin t _ _ => negb (t =? 0)
+  | Calls _ => true
+  end.
+
+Definition follow (sha : hin -> Z) (s : state) (ts : tstate) (st : step) (it : titem) : titem :=
+  mkT (t_r0 it) (t_d it) (spec_step sha (t_r0 it) (t_d it) s (t_ph it) st) (keep ts st it).
+
+(** the tracker after a step ([s] = model state before it; [accepted]: the request was accepted) *)
+Definition track_next (sha : hin -> Z) (s : state) (ts : tstate) (st : step) (accepted : bool) : tstate :=
+  let items := map (follow sha s ts st) (ts_items ts) in
+  match st with
+  | Req c n orc capok txh svc =>
+      let cx := if orc then svc else None in
+      let seen := match cx with Some x => memb x (ts_ctxs ts) | None => false end in
+      let ctxs := match cx with Some x => x :: ts_ctxs ts | None => ts_ctxs ts end in
+      if req_ok c capok orc svc then
+        let bad := if memb c (ts_used ts) then c :: ts_bad ts else ts_bad ts in
+        let items := if accepted
+                     then items ++ [mkT (new_req s c txh orc svc) (height s + n) Pending
+                                        (ts_ok ts && negb (memb c bad) && negb seen && (0 <=? n))]
+                     else items in
+        mkTS items (c :: ts_used ts) bad (ts_ok ts) ctxs
+      else mkTS items (ts_used ts) (ts_bad ts) (ts_ok ts) ctxs
+  | Begin t _ _ => mkTS items [] (ts_bad ts) (ts_ok ts && negb (t =? 0)) (ts_ctxs ts)
+  | Calls _ => mkTS items (ts_used ts) (ts_bad ts) (ts_ok ts) (ts_ctxs ts)
+  end.
+
+Definition views_code (ts : tstate) (o : obs) : Z :=
+  if forallb (fun it => negb (t_live it) || view_ok (t_r0 it) (t_d it) (t_ph it) o) (ts_items ts) then 0 else 9.
+
+(** new tracker state and clause code (0 or 9); [agree] = model and implementation agree on the
+    outcome, which is not an abort *)
 Definition track_step (sha : hin -> Z) (s : state) (ts : tstate) (st : step) (agree accepted : bool) (o : obs)
   : tstate * Z :=
-  if negb agree then (mkTS (kill_if (fun _ => true) (ts_items ts)) (ts_used ts) (ts_bad ts) false, 0) else
-  let adv := map (fun it => mkT (t_r0 it) (t_d it) (spec_step sha (t_r0 it) (t_d it) s (t_ph it) st) (t_live it))
-                 (ts_items ts) in
-  let ts' :=
-    match st with
-    | Req c n orc capok txh svc =>
-        if req_ok c capok orc svc then
-          let dup := memb c (ts_used ts) in
-          let bad := if dup then c :: ts_bad ts else ts_bad ts in
-          let items := if dup then kill_if (fun it => q_consumer (t_r0 it) =? c) adv else adv in
-          let r0 := new_req s c txh orc svc in
-          let clash := orc && existsb (fun it => q_oracle (t_r0 it) && (q_ctx (t_r0 it) =? q_ctx r0)) items in
-          let items := if clash then kill_if (fun it => q_oracle (t_r0 it) && (q_ctx (t_r0 it) =? q_ctx r0)) items
-                       else items in
-          let items := if accepted
-                       then items ++ [mkT r0 (height s + n) Pending
-                                          (ts_ok ts && negb (memb c bad) && negb clash && (0 <=? n) && (height s + n <? two63))]
-                       else items in
-          mkTS items (c :: ts_used ts) bad (ts_ok ts)
-        else mkTS adv (ts_used ts) (ts_bad ts) (ts_ok ts)
-    | Begin t _ _ =>
-        if t =? 0 then mkTS (kill_if (fun _ => true) adv) [] (ts_bad ts) false
-        else mkTS adv [] (ts_bad ts) (ts_ok ts)
-    | Calls _ => mkTS adv (ts_used ts) (ts_bad ts) (ts_ok ts)
-    end in
-  (ts', if forallb (fun it => negb (t_live it) || view_ok (t_r0 it) (t_d it) (t_ph it) o) (ts_items ts') then 0 else 9).
+  if negb agree
+  then (mkTS (map kill (ts_items ts)) (ts_used ts) (ts_bad ts) false (ts_ctxs ts), 0)
+  else let ts' := track_next sha s ts st accepted in (ts', views_code ts' o).
 
 (** one step of the property check: new bookkeeping, clause code (0 = holds), halted *)
 Definition prop_step (p : pst) (st : step) (o : obs) : pst * Z * bool :=
@@ -288,3 +305,108 @@ Fixpoint check_from (sha : hin -> Z) (s : state) (p : pst) (ts : tstate) (c : li
 Definition check_case (c : case) : Z * Z * Z :=
   let '(tbl, steps) := c in
   check_from (table_sha tbl) init pinit tinit steps 0 (-1) (-1) 0 false.
+
+(** ** compressed cases
+
+    The driver does not re-print what did not change: the queue and the oracle-request view are
+    given only when they differ from the previous observation, the reads only where they differ
+    (new ids included), and a value string of the expected shape is given as its numerator.
+    [expand] rebuilds the full observations; [check_ccase] is [check_case] on them.
+    [compress] is the encoder (the driver's, restated); [compressed_cases_lossless] (Props/C18.v):
+    [expand obs0 (compress obs0 l) = l] for EVERY observation sequence. *)
+Inductive vstr := VNum (x : Z) | VRaw (l : list Z).
+Definition vdecode (v : vstr) : list Z := match v with VNum x => render x | VRaw l => l end.
+
+Definition cread := option (Z * Z * vstr).
+Definition dec_read (v : cread) : oread :=
+  match v with Some (txh, h, s) => Some (txh, h, vdecode s) | None => None end.
+
+Inductive creads :=
+| CDelta (l : list (rid * cread))    (* the reads that differ from the previous observation *)
+| CFull (l : list (rid * cread)).    (* all reads *)
+
+Record cobs := mkC {
+  c_code : Z;
+  c_queue : option (list (Z * rid * request));
+  c_reads : creads;
+  c_oracle : option (list (Z * option request));
+  c_svc : list svcfact
+}.
+
+Definition apply_reads (prev : list (rid * oread)) (l : list (rid * cread)) : list (rid * oread) :=
+  fold_left (fun m e => set (fst e) (dec_read (snd e)) m) l prev.
+
+Definition expand_obs (prev : obs) (c : cobs) : obs :=
+  mkObs (c_code c)
+        (match c_queue c with Some q => q | None => o_queue prev end)
+        (match c_reads c with
+         | CDelta l => apply_reads (o_reads prev) l
+         | CFull l => map (fun e => (fst e, dec_read (snd e))) l
+         end)
+        (match c_oracle c with Some x => x | None => o_oracle prev end)
+        (c_svc c).
+
+Fixpoint expand (prev : obs) (l : list (step * cobs)) : list (step * obs) :=
+  match l with
+  | [] => []
+  | (st, c) :: rest => let o := expand_obs prev c in (st, o) :: expand o rest
+  end.
+
+Definition obs0 : obs := mkObs 0 [] [] [] [].
+
+Definition ccase := (list (hin * Z) * list (step * cobs))%type.
+
+Definition check_ccase (c : ccase) : Z * Z * Z := check_case (fst c, expand obs0 (snd c)).
+
+(** the encoder *)
+Fixpoint undig (l : list Z) (acc : Z) : Z :=
+  match l with [] => acc | ch :: l' => undig l' (10 * acc + (ch - 48)) end.
+
+(** a string that is the rendering of its own digits is sent as that number *)
+Definition enc_str (v : list Z) : vstr :=
+  let x := undig (skipn 2 v) 0 in if eqb (render x) v then VNum x else VRaw v.
+
+Definition enc_read (v : oread) : cread :=
+  match v with Some (txh, h, s) => Some (txh, h, enc_str s) | None => None end.
+
+Definition compress_obs (prev o : obs) : cobs :=
+  let delta := flat_map (fun e => if eqb (get (fst e) (o_reads prev)) (Some (snd e)) then []
+                                  else [(fst e, enc_read (snd e))]) (o_reads o) in
+  mkC (o_code o)
+      (if eqb (o_queue o) (o_queue prev) then None else Some (o_queue o))
+      (if eqb (apply_reads (o_reads prev) delta) (o_reads o) then CDelta delta
+       else CFull (map (fun e => (fst e, enc_read (snd e))) (o_reads o)))
+      (if eqb (o_oracle o) (o_oracle prev) then None else Some (o_oracle o))
+      (o_svc o).
+
+Fixpoint compress (prev : obs) (l : list (step * obs)) : list (step * cobs) :=
+  match l with
+  | [] => []
+  | (st, o) :: rest => (st, compress_obs prev o) :: compress o rest
+  end.
+
+Lemma vdecode_enc v : vdecode (enc_str v) = v.
+Proof.
+  unfold enc_str. destruct (eqb (render (undig (skipn 2 v) 0)) v) eqn:He; [|reflexivity].
+  apply (proj1 (eqb_true_iff _ _)) in He. exact He.
+Qed.
+
+Lemma dec_enc_read v : dec_read (enc_read v) = v.
+Proof. destruct v as [[[txh h] s]|]; simpl; [rewrite vdecode_enc|]; reflexivity. Qed.
+
+Lemma expand_compress_obs prev o : expand_obs prev (compress_obs prev o) = o.
+Proof.
+  destruct o as [code q rd orc svc]. unfold expand_obs, compress_obs. cbn [c_code c_queue c_reads c_oracle c_svc o_code o_queue o_reads o_oracle o_svc].
+  f_equal.
+  - destruct (eqb q (o_queue prev)) eqn:He; [apply (proj1 (eqb_true_iff _ _)) in He; congruence|reflexivity].
+  - match goal with |- context [eqb ?a rd] => destruct (eqb a rd) eqn:He end.
+    + apply (proj1 (eqb_true_iff _ _)) in He. exact He.
+    + rewrite map_map. rewrite <- (map_id rd) at 2. apply map_ext. intros [id v]. simpl. rewrite dec_enc_read. reflexivity.
+  - destruct (eqb orc (o_oracle prev)) eqn:He; [apply (proj1 (eqb_true_iff _ _)) in He; congruence|reflexivity].
+Qed.
+
+Lemma expand_compress l : forall prev, expand prev (compress prev l) = l.
+Proof.
+  induction l as [|[st o] l IH]; intros prev; simpl; [reflexivity|].
+  rewrite expand_compress_obs, IH. reflexivity.
+Qed.
